@@ -22,6 +22,16 @@ import vharness
 from vharness import HARNESSES, PROP2HARNESS
 
 NWORKERS = int(os.environ.get("VERIF_WORKERS", "16"))
+
+
+def _die_with_parent():
+    """preexec_fn: workers must not outlive the orchestrator (e.g. when it is killed by a time limit)."""
+    try:
+        import ctypes
+        import signal
+        ctypes.CDLL("libc.so.6", use_errno=True).prctl(1, signal.SIGKILL)  # PR_SET_PDEATHSIG
+    except Exception:
+        pass
 KNOWN_FILE = os.path.join(VERIF, "known_findings.txt")
 ASAN_OPTS = "detect_leaks=0:abort_on_error=0:allocator_may_return_null=1:detect_stack_use_after_return=0:handle_segv=1:symbolize=1"
 
@@ -115,7 +125,7 @@ class Replayer:
         env = base_env(self.prop, self.scratch, outdir, self.known_path)
         cmd = [self.exe] + (["--trace"] if trace else []) + [path]
         try:
-            p = subprocess.run(cmd, env=env, stdout=subprocess.PIPE, stderr=subprocess.STDOUT, timeout=timeout, cwd=outdir)
+            p = subprocess.run(cmd, env=env, stdout=subprocess.PIPE, stderr=subprocess.STDOUT, timeout=timeout, cwd=outdir, preexec_fn=_die_with_parent)
             out = p.stdout.decode("utf-8", "replace")
             rc = p.returncode
         except subprocess.TimeoutExpired as e:
@@ -262,7 +272,7 @@ def _run_check(prop, tier, seed, t0, harness, cfg, budget, level, targets, scrat
         for k, v in cfg.get("env", {}).items():
             env[k] = v
         logf = open(os.path.join(out, "log"), "wb")
-        p = subprocess.Popen([targets["rc"].out], env=env, stdout=logf, stderr=subprocess.STDOUT, cwd=out)
+        p = subprocess.Popen([targets["rc"].out], env=env, stdout=logf, stderr=subprocess.STDOUT, cwd=out, preexec_fn=_die_with_parent)
         workers.append((i, out, p, logf))
     stats_all = []
     for i, out, p, logf in workers:
@@ -381,7 +391,7 @@ def run_libfuzzer(prop, harness, cfg, budget, exe, scratch, known_path, seed):
                "-len_control=0", "-artifact_prefix=%s/" % out, "-print_final_stats=1", "-timeout=60", "-rss_limit_mb=4096",
                "-verbosity=0"]
         logf = open(os.path.join(out, "log"), "wb")
-        procs.append((j, out, subprocess.Popen(cmd, env=env, stdout=logf, stderr=subprocess.STDOUT, cwd=out), logf))
+        procs.append((j, out, subprocess.Popen(cmd, env=env, stdout=logf, stderr=subprocess.STDOUT, cwd=out, preexec_fn=_die_with_parent), logf))
     for j, out, p, logf in procs:
         rc = p.wait()
         logf.close()
